@@ -71,6 +71,9 @@ type Cluster struct {
 	BgFault func(t structs.MessageType) (fault string, desc string)
 	// FaultQueue: faults for the next proposals that carry none of their own
 	FaultQueue []string
+	// RaceHook commits somebody else's entry in front of a proposal that carries the fault "race"
+	// (CommitForeign); false if it had nothing to commit
+	RaceHook func(t structs.MessageType, buf []byte) bool
 }
 
 type pendingProposal struct {
@@ -155,6 +158,12 @@ func (c *Cluster) propose(t structs.MessageType, buf []byte) (any, error) {
 		c.Run.Hit("fault.propose-not-leader")
 		return nil, raft.ErrNotLeader
 	}
+	if fault == "race" {
+		// somebody else's entry is committed between the moment the proposer read the state and its own entry
+		if c.RaceHook != nil && c.RaceHook(t, buf) {
+			c.Run.Hit("fault.propose-raced")
+		}
+	}
 	idx := c.next + uint64(gap)
 	c.next = idx + 1
 	e := Entry{Index: idx, Data: append([]byte{}, buf...), Desc: desc}
@@ -189,6 +198,30 @@ func (c *Cluster) propose(t structs.MessageType, buf []byte) (any, error) {
 		return nil, err
 	}
 	return resp, nil
+}
+
+// CommitForeign appends and applies, right now, an entry that somebody else proposed (a racing
+// routine of the same leader, the leftover of a deposed one).
+func (c *Cluster) CommitForeign(t structs.MessageType, msg any, desc string) any {
+	buf, err := structs.Encode(t, msg)
+	if err != nil {
+		panic(err)
+	}
+	idx := c.next
+	c.next++
+	e := Entry{Index: idx, Data: buf, Desc: desc}
+	c.Log = append(c.Log, e)
+	resp, perr := c.L.Apply(e)
+	if perr != nil {
+		c.Fatal = perr
+		return nil
+	}
+	c.Results[idx] = CanonResult(resp)
+	c.Run.Eventf("commit %d type=%d %s -> %s", idx, t, desc, simkit.Trunc(c.Results[idx], 200))
+	if c.OnCommit != nil {
+		c.OnCommit(e, resp)
+	}
+	return resp
 }
 
 // DrainBackground processes proposals parked by timer goroutines and tombstone
